@@ -34,7 +34,7 @@ def run(prop, tier):
         xs = dict((a, build.build_exe("count_wrap", "fast", ["harness/count_wrap.c"], atomic=a)) for a in ("c11", "sync", "sim"))
         common.parallel(lambda a: common.run_harness(xs[a], [32, 16], acc, "count_wrap[%s] 2^32+16 failed trylock calls" % a, timeout=3000, crash_prop=prop), list(xs))
     extra = {}
-    if tier == "thorough" and not acc.viols:
+    if tier == "thorough" and not acc.viols and not acc.engine_errors:
         extra = mcsched.conformance(acc, [j for j in jobs if j["args"][0] not in ("values", "barrier")])
     cov = mcsched.coverage(acc, "stateless DFS over all interleavings with <= %d preemptions of 2-3 real threads x (lock|trylock; critical section with a visible step; unlock) "
                                 "on the real PMutex/PSpinLock for each atomic model; oracles: shadow holder count, plain counter watched by the happens-before monitor, "
